@@ -79,9 +79,13 @@ MetaReasons(e) ==
                                                    /\ \E a \in Range(After(e)) : a.key = b.key /\ a.meta # b.meta}}
     \cup {<<"front-matter-invented", v.key>> : v \in {a \in Range(After(e)) : a.key \in Created(e) /\ a.meta # ""}}
 
+\* the note the action was requested in is among the notes the edit rewrote
+HasSrc(e) == \E v \in Range(Before(e)) : v.key \notin Deleted(e) /\ \E w \in Range(After(e)) : w.key = v.key
+
 Reasons(e) ==
     IF e.res # "ok" THEN {<<"offered-action-failed", e.res>>}
     ELSE IF Before(e) = <<>> /\ After(e) = <<>> THEN {<<"empty-edit">>}
+    ELSE IF ~HasSrc(e) THEN {<<"source-note-not-rewritten", Created(e), Deleted(e)>>}
     ELSE (CASE Kind(e) \in {"refactor.extract.section", "refactor.extract.subsections"} -> ExtractReasons(e)
             [] Kind(e) \in {"refactor.inline.reference.section", "refactor.inline.reference.quote"} -> InlineReasons(e)
             [] Kind(e) \in {"refactor.rewrite.list.type", "refactor.rewrite.list.section", "refactor.rewrite.section.list"} -> ConvertReasons(e)
